@@ -285,6 +285,9 @@ def firing_mutants(src: dict[str, str]) -> list[dict]:
     # C03 (NONBLANK): the blank-line exit of the paragraph scan dropped
     m += _each("rules_block/paragraph.py", src, lambda n: isinstance(n, ast.If) and U(n.test) == "state.isEmpty(nextLine)", lambda n: ast.Pass(), "C03",
                "`if state.isEmpty(nextLine): break` dropped in paragraph", 1)
+    # C16 (NLCOUNT, completeness): the escaped character is no longer looked at for a line feed
+    m += _each("helpers/parse_link_title.py", src, lambda n: isinstance(n, ast.If) and isinstance(n.test, ast.Compare) and "charCodeAt(string, pos) == 10" in U(n.test)
+               and any(isinstance(x, ast.AugAssign) for x in n.body), lambda n: ast.Pass(), "C16", "LF test of the escaped character dropped in parseLinkTitle", 1)
     # C15 (IDENT): structural equality on tree nodes
     def add_eq(n):
         n = copy.deepcopy(n)
